@@ -10,7 +10,10 @@ C07_export_rejects_unknown_flags C07_126_levels_accepted C07_deeper_level_interl
 C07_overlapping_strides_rejected C07_interleave_by_pu
 C07_attached_numa_present C07_numa_census_filter_independent C07_unfilterable_types C07_filtered_levels_keep_numas
 C07_attached_numa_survive_filters_bounded
-C07_build_wf_clauses C07_build_wf_partial C07_build_wf_reduction C07_build_wf_unproved_clauses C07_export_fixpoint_partial""".split()]
+C07_build_wf_clauses C07_build_wf_partial C07_build_wf_reduction C07_build_wf_unproved_clauses C07_export_fixpoint_partial
+C07_build_wf_rest_clauses C07_build_wf C07_build_wf_rest
+C07_order_establishes_sib_partial C07_build_wf_of_order_partial C07_mkNode_orders_leaves C07_export_fixpoint_flags_partial
+C07_build_wf_iff_sibOK C07_buildTopo_sib_normal C07_build_wf_of_parse_partial""".split()]
 CHECK_MODULES = ["Hw.Props.C07"]
 TRUSTED = ["libc strtoul/strtoull/strtol are modelled (Hw.Base.Num.strtoul for unsigned input, Hw.Syn.strtoulS/strtolU32 add glibc's sign, "
            "saturation and (unsigned) truncation); strchr/strspn/strcspn/strncmp/strncasecmp (C locale) are modelled in Hw.Io.Synthetic; "
@@ -42,12 +45,15 @@ MODELLED = ("modelled: hwloc/topology-synthetic.c hwloc_synthetic_process_indexe
             "PROVED for every input string: level[] index safety, loops[] write safety, array length/Nodup/permutation of accepted indexes, "
             "export length contract, one census entry per described NUMA node independent of the normal-type filters, devirt keeps the "
             "number of NUMA nodes and leaves no unbuilt level (every chain), PU/NUMA/Machine cannot be filtered out, parse_faithful (types and arities of canonical descriptions without attributes); "
-            "build_wf: 45 of the 47 WF clauses for EVERY abstract topology under the side conditions topoOK/puOK/memOK/numaOK, which the driver "
-            "evaluates on every built case (C07_build_wf_clauses; C07_build_wf_partial reduces WF to the clauses nodeset-decomposition and "
-            "siblings-ordered, which stay proved for a finite family only: C07_build_wf_bounded); export_fixpoint for the flag word "
-            "NO_ATTRS|IGNORE_MEMORY (C07_export_fixpoint_partial, re-evaluated per case against hwloc's string); NOT PROVED (differential / "
-            "oracle per case): the two remaining WF clauses in general, that the side conditions follow from buildTopo, export_fixpoint under the "
-            "other 15 flag words (engine oracle; F34/F35 known), parse_faithful with attributes")
+            "build_wf: all 47 WF clauses for EVERY abstract topology under the side conditions topoOK/puOK/memOK/numaOK/sibOK, which the driver "
+            "evaluates on every built case (C07_build_wf; C07_build_wf_clauses = the 45 clauses that need no sibOK, C07_build_wf_rest_clauses = "
+            "nodeset-decomposition through the inh/below folds of mkAux and siblings-ordered under sibOK); orderTopo establishes puOK and the "
+            "normal-children half of sibOK (C07_order_establishes_sib_partial, C07_mkNode_orders_leaves), the latter for every topology buildTopo returns "
+            "(C07_buildTopo_sib_normal, C07_build_wf_of_parse_partial); WF <-> sibOK under the other four (C07_build_wf_iff_sibOK); export_fixpoint for the flag words "
+            "NO_ATTRS|IGNORE_MEMORY[|NO_EXTENDED_TYPES][|V1] on name-stable topologies (C07_export_fixpoint_partial, "
+            "C07_export_fixpoint_flags_partial, re-evaluated per case against hwloc's string); NOT PROVED (differential / "
+            "oracle per case): that topoOK/memOK/numaOK/the memory half of sibOK follow from buildTopo, export_fixpoint under the "
+            "other 12 flag words and the re-import step through buildTopo (engine oracle; F34/F35 known), parse_faithful with attributes")
 
 def run_engines(tier, seed):
     return eng_synthetic.run_engine(tier, seed)
